@@ -326,6 +326,20 @@ func (in *c16Inst) apply(op string) bool {
 			in.open = nil // the paused proposal is rejected together with it
 		}
 		in.open2 = nil
+	case "rereg": // rereg:<service>: the chain's admin registers an EXISTING service again under a new name
+		o := in.objs[f[1]]
+		if o == nil || o.kind != "service" || in.open != nil {
+			return false
+		}
+		parts := strings.SplitN(o.id, ":", 2)
+		st.res = w.Block(w.InvokeTx(c16ChainAdmin[parts[0]], constant.ServiceMgrContractAddr, "RegisterService",
+			pb.String(parts[0]), pb.String(parts[1]), pb.String(fmt.Sprintf("renamed-%d", w.Blocks)), pb.String("CallContract"),
+			pb.String("intro"), pb.Uint64(1), pb.String(""), pb.String("details"), pb.String("reason")))
+		st.target, st.trigger = f[1], "submit:register"
+		if rc := st.res.Receipts[0]; rc.IsSuccess() {
+			st.accepted = true
+			in.open = &c16Open{id: fix.ProposalID(rc), obj: f[1], event: "register", lastStatus: st.before[f[1]]}
+		}
 	case "regsvc4": // submit the registration of A:s4 (a second, independent proposal)
 		if in.regOpen != "" || st.before["svcA4"] != "none" {
 			return false
@@ -613,7 +627,7 @@ func C16(c *mc.Ctx) {
 			ops = append(ops, "sub:"+o+":"+e)
 		}
 	}
-	ops = append(ops, "conclude:approve", "conclude:reject", "probe:p1", "probe:p3", "restart", "regsvc4", "concludereg:approve", "concludereg:reject", "probe:p5", "probe:p2", "sub2:chainA:logout", "conclude2:approve", "conclude2:reject")
+	ops = append(ops, "conclude:approve", "conclude:reject", "probe:p1", "probe:p3", "restart", "regsvc4", "concludereg:approve", "concludereg:reject", "probe:p5", "probe:p2", "rereg:svcA1", "sub2:chainA:logout", "conclude2:approve", "conclude2:reject")
 	depth := 7
 	if c.Quick() {
 		depth = 6
@@ -634,7 +648,7 @@ func C16(c *mc.Ctx) {
 	fix.Cleanup()
 	c.Set("rule_role_node", "second BFS over {submit freeze/activate/logout of governance admin 3's role; submit register/update/logout of a non-validating node; conclude the open proposal by 3 approvals or 3 rejections; restart}: every status change of the role / node record must be an edge of its declared state machine for the step's trigger, forbidden is absorbing, refused operations change nothing")
 	c.Set("rule_rules", "third BFS (world with a fabric-type chain F: three built-in rules, master = SimFabric; and chain W: built-in happy rule + a deployed WASM rule as master) over {UpdateMasterRule to each rule of F and W; LogoutRule of the deployed rule and of a built-in rule; freeze/activate/logout of appchain F; conclude the open proposal by 3 approvals or 3 rejections; restart}: every status change of a rule is an edge of the rule state machine for the step's trigger (candidate: bindable->binding->available|bindable; replaced master: available->unbinding->bindable|available; logout: bindable->forbidden; cleared with a logged-out appchain), the paused appchain follows available->frozen->available, at most one rule of a chain is available at any time and exactly one when no update is open, refused operations change nothing")
-	c.Set("rule", "BFS over {submit freeze/activate/logout for appchain A, service A:s1, service B:s2; conclude the open proposal by 3 approvals or 3 rejections; IBTP request A:s1->B:s2, B:s2->A:s1 and A:s3->B:s2 (B:s2 blacklists A:s3); node restart}; states merged on the abstraction (stored governance statuses, open proposal, the executor's cached service statuses, pairs used, restarts); after every step each observed status change must be an edge of the object's declared state machine for the step's trigger (or a cascade of the owning appchain), forbidden is absorbing, a refused operation changes nothing, and each request is accepted / recorded as begin-failed (status, source notified) / rejected without record according to the STORED availability of source and destination service")
+	c.Set("rule", "BFS over {submit freeze/activate/logout for appchain A, service A:s1, service B:s2; conclude the open proposal by 3 approvals or 3 rejections; IBTP request A:s1->B:s2, B:s2->A:s1 and A:s3->B:s2 (B:s2 blacklists A:s3); registration of the existing service A:s1 under a new name; node restart}; states merged on the abstraction (stored governance statuses, open proposal, the executor's cached service statuses, pairs used, restarts); after every step each observed status change must be an edge of the object's declared state machine for the step's trigger (or a cascade of the owning appchain), forbidden is absorbing, a refused operation changes nothing, and each request is accepted / recorded as begin-failed (status, source notified) / rejected without record according to the STORED availability of source and destination service")
 	c.Assume("state machines and the availability sets {available, freezing} are transcribed from the objects' FSM declarations (trusted base);  the abstraction merges histories that differ only in heights, nonces, ids and counters")
 	_ = contracts.TRUE
 	if c.Get("probes_checked") == 0 || c.Get("status_changes_checked") == 0 {
